@@ -67,8 +67,10 @@ def replay_states(ctx, states, r):
       arr = lambda k: np.array([[float(c[k][t]) for c in cols] for t in range(T)], np.float64)
       trunc, term, rw, v = arr('trunc'), arr('term'), arr('r'), arr('V')
       boot = np.array([float(c['boot']) for c in cols])
-      vs, adv = gae(trunc, term, rw, v, boot, dy(lam), dy(gam))
-      vs, adv = np.asarray(vs), np.asarray(adv)
+      # the masks may arrive as floats, booleans or integers: the value must not depend on that
+      mdt = [np.float64, np.float32, np.bool_, np.int32, np.uint8][nb % 5]
+      vs, adv = gae(trunc.astype(mdt), term.astype(mdt), rw, v, boot, dy(lam), dy(gam))
+      vs, adv = np.asarray(vs, np.float64), np.asarray(adv, np.float64)
       if vs.shape != (T, B) or adv.shape != (T, B):
         ctx.violation(f'compute_gae output shapes {vs.shape} {adv.shape}, expected {(T, B)}', {'T': T, 'B': B},
                       {'call': 'compute_gae', 'predicate': 'shape'})
@@ -77,7 +79,7 @@ def replay_states(ctx, states, r):
         want_vs = [dy(x) for x in c['vs']]
         want_adv = [dy(x) for x in c['adv']]
         nontrivial = any(c['term']) or any(c['trunc'])
-        case = {'T': T, 'B': B, 'column': j, 'lambda': dy(lam), 'discount': dy(gam), 'termination': list(c['term']),
+        case = {'T': T, 'B': B, 'column': j, 'mask_dtype': np.dtype(mdt).name, 'lambda': dy(lam), 'discount': dy(gam), 'termination': list(c['term']),
                 'truncation': list(c['trunc']), 'rewards': list(c['r']), 'values': list(c['V']), 'bootstrap': c['boot'],
                 'expected_vs': want_vs, 'expected_adv': want_adv, 'got_vs': vs[:, j].tolist(), 'got_adv': adv[:, j].tolist()}
         ctx.case(key=(T, lam, gam, c['term'], c['trunc'], c['r'], c['V'], c['boot']), nontrivial=nontrivial,
